@@ -9,6 +9,8 @@ use tokio::sync::Semaphore;
 
 struct Shared {
     handled: Mutex<Vec<Vec<u16>>>,
+    /// commands whose handler ran to its end
+    completed: Mutex<Vec<Vec<u16>>>,
     gates: Vec<Arc<Semaphore>>,
     sender: Mutex<Option<CommandSender>>,
 }
@@ -36,6 +38,9 @@ impl NetworkService<NetCfg> for StubNet {
         }
         // the handler is "slow": it finishes only when the harness grants a permit
         self.0.shared.gates[self.0.idx].acquire().await.unwrap().forget();
+        if let Object::Engine(e) = object {
+            self.0.shared.completed.lock().unwrap()[self.0.idx].push(e.rpm);
+        }
     }
 }
 
@@ -74,9 +79,16 @@ fn scenario(out: &mut Out, networks: usize, acts: &[Act], nontrivial: bool) {
 /// yielding to the executor: a command accepted right after a network was scheduled belongs to that network
 /// (its receiver exists from scheduling time on, not from the first poll of its task)
 fn scenario_at(out: &mut Out, networks: usize, acts: &[Act], nontrivial: bool, early: bool) {
+    scenario_full(out, networks, acts, nontrivial, early, None)
+}
+
+/// `slow`: the networks run with this control-cycle interval (ms) and real time passes (4 intervals) after every act
+/// while the handlers are held back: a handler may take longer than a cycle
+fn scenario_full(out: &mut Out, networks: usize, acts: &[Act], nontrivial: bool, early: bool, slow: Option<u64>) {
     let rt = tokio::runtime::Builder::new_current_thread().enable_all().build().unwrap();
     let shared = Arc::new(Shared {
         handled: Mutex::new(vec![vec![]; networks]),
+        completed: Mutex::new(vec![vec![]; networks]),
         gates: (0..networks).map(|_| Arc::new(Semaphore::new(0))).collect(),
         sender: Mutex::new(None),
     });
@@ -87,7 +99,7 @@ fn scenario_at(out: &mut Out, networks: usize, acts: &[Act], nontrivial: bool, e
             settle().await;
         }
         for i in 0..networks {
-            runtime.schedule_net_service::<StubNet, NetCfg>(NetCfg { idx: i, shared: shared.clone() }, Duration::from_secs(3600));
+            runtime.schedule_net_service::<StubNet, NetCfg>(NetCfg { idx: i, shared: shared.clone() }, slow.map_or(Duration::from_secs(3600), Duration::from_millis));
         }
         if !early {
             settle().await;
@@ -119,6 +131,10 @@ fn scenario_at(out: &mut Out, networks: usize, acts: &[Act], nontrivial: bool, e
                 continue;
             }
             settle().await;
+            if let Some(ms) = slow {
+                tokio::time::sleep(Duration::from_millis(4 * ms)).await;
+                settle().await;
+            }
             observe(&mut toks, &mut seen);
         }
         // finally every handler is released and drains what is left
@@ -130,7 +146,10 @@ fn scenario_at(out: &mut Out, networks: usize, acts: &[Act], nontrivial: bool, e
         observe(&mut toks, &mut seen);
         let h = shared.handled.lock().unwrap();
         let lists: Vec<String> = h.iter().map(|l| if l.is_empty() { "-".to_string() } else { l.iter().map(|x| x.to_string()).collect::<Vec<_>>().join(",") }).collect();
-        (toks.join(" "), lists.join(";"))
+        // every command whose handler was started has run to its end by now
+        let c = shared.completed.lock().unwrap();
+        let missing: Vec<String> = (0..networks).filter(|&i| c[i] != h[i]).map(|i| format!("{}:{}", i, h[i].len() as i64 - c[i].len() as i64)).collect();
+        (toks.join(" "), if missing.is_empty() { lists.join(";") } else { format!("{} INCOMPLETE:{}", lists.join(";"), missing.join(",")) })
     });
     out.case(&format!("bus {} {}", networks, line.0), &line.1, nontrivial);
 }
@@ -165,6 +184,14 @@ pub fn run(out: &mut Out, tier: &str, rng: &mut Rng) {
             acts.push(Act::Release(0, 1));
             scenario_at(out, networks, &acts, true, true);
             out.count("commands right after scheduling");
+        }
+        // handlers that take longer than a control cycle (5 ms cycles, 20 ms pass after every act while they are held)
+        for burst in [1usize, 3, 6] {
+            let mut acts = vec![Act::Send; burst];
+            acts.push(Act::Release(0, 1));
+            acts.push(Act::Send);
+            scenario_full(out, networks, &acts, true, false, Some(5));
+            out.count("handler slower than a control cycle");
         }
         // the director's emergency burst: six commands per signal, many signals, slow handler
         let mut acts = vec![];
